@@ -2658,8 +2658,11 @@ def prune_unused_graph_inputs_ir(graph: ir.Graph) -> None:
             return True
         # Preserve positional graph inputs that correspond to original JAX
         # function arguments (named ``in_<index>`` by IRContext.add_input_for_invar).
+        # Layout-flagged arguments are named ``in_<index>_nchw``.
         if name.startswith("in_"):
             suffix = name[3:]
+            if suffix.endswith("_nchw"):
+                suffix = suffix[: -len("_nchw")]
             if suffix.isdigit():
                 return True
         return False
